@@ -111,7 +111,7 @@ func ruleT3(c *an.Ctx) {
 				fmt.Sprintf("MapDim is overwritten with ArrayDim+1 (wrap in a map); on every path from a definition of the type id (%d found) the test MapDim == 0 of the same value must be crossed, otherwise a map of maps collapses to a map and an ill-typed binding is accepted; unguarded from %s %s", len(defs), from, c.WitnessString(w)))
 		}
 	}
-	c.Floor("T3", "wrap-in-map sites (MapDim = ArrayDim + 1)", n, 4)
+	c.Floor("T3", "wrap-in-map sites (MapDim = ArrayDim + 1)", n, 1)
 }
 
 // T4: a merge whose element count is only known at run time is never a constant.  The runtime
